@@ -72,7 +72,20 @@ func conflictSet(i int64, seed int64) []file {
 	r := prng.For(seed, "C05", "conflict", i)
 	pick := func(xs ...string) string { return xs[r.Intn(len(xs))] }
 	var fs []file
-	switch i % 19 {
+	switch i % 20 {
+	case 19: // submodules that no loaded module includes, chained by links that do not resolve: one includes the other and then imports a module that is missing, the other imports another missing module. Which errors come out must not depend on which of the two is linked first.
+		n := 2 + r.Intn(2)
+		for k := 0; k < n; k++ {
+			inc := ""
+			if k+1 < n {
+				inc = fmt.Sprintf("include orph%d; ", k+1)
+			}
+			if r.Intn(4) == 0 && k > 0 {
+				inc += "include orph0; "
+			}
+			fs = append(fs, file{fmt.Sprintf("orph%d.yang", k), fmt.Sprintf("submodule orph%d { belongs-to nomodule { prefix nm; } %simport missing%d { prefix mi; } leaf l%d { type string; } }", k, inc, k, k)})
+		}
+		fs = append(fs, file{"fine.yang", "module fine { namespace \"urn:fine\"; prefix fine; leaf ok { type string; } }"})
 	case 18: // source names with colons in them (a path with a drive letter, a URL) next to a plain one, and errors on lines of one and two digits: the fields that the sort compares are then numbers in one entry and words in the other
 		na, nb := pick("a", "c", "m1"), ""
 		nb = na + ":" + pick("1x", "1z", "10x", "x", "b:c")
@@ -469,10 +482,11 @@ func CLI(j *job.Job, s *job.Sink) {
 		}
 		// Every other set also has a module with types that are equal in everything but their
 		// names (and, written in place, in nothing but their position): a formatter that
-		// lists "each type once" must still list the same ones every time.
+		// lists "each type once" must still list the same ones every time. And siblings whose
+		// names differ in the case of letters only (YANG names are case-sensitive) have one order.
 		if c%2 == 0 {
 			n := "zzmeter.yang"
-			t := "module zzmeter {\n  namespace \"urn:zzmeter\";\n  prefix zm;\n  typedef cpu-load { type uint8 { range \"0..100\"; } units percent; }\n  typedef disk-fill { type uint8 { range \"0..100\"; } units percent; }\n  typedef label { type string { length \"1..32\"; } }\n  typedef tag { type string { length \"1..32\"; } }\n  container meter {\n    leaf cpu { type cpu-load; }\n    leaf disk { type disk-fill; }\n    leaf name { type label; }\n    leaf kind { type tag; }\n    leaf a { type int16 { range \"1..9\"; } }\n    leaf b { type int16 { range \"1..9\"; } }\n  }\n}\n"
+			t := "module zzmeter {\n  namespace \"urn:zzmeter\";\n  prefix zm;\n  typedef cpu-load { type uint8 { range \"0..100\"; } units percent; }\n  typedef disk-fill { type uint8 { range \"0..100\"; } units percent; }\n  typedef label { type string { length \"1..32\"; } }\n  typedef tag { type string { length \"1..32\"; } }\n  container meter {\n    leaf cpu { type cpu-load; }\n    leaf disk { type disk-fill; }\n    leaf name { type label; }\n    leaf kind { type tag; }\n    leaf a { type int16 { range \"1..9\"; } }\n    leaf b { type int16 { range \"1..9\"; } }\n  }\n  container cases {\n    leaf ifIndex { type int32; }\n    leaf ifindex { type int32; }\n    leaf IfIndex { type string; }\n    leaf IFINDEX { type string; }\n    leaf ifINDEX { type boolean; }\n    leaf Ifindex { type boolean; }\n    leaf ifindeX { type int8; }\n    leaf iFindex { type int8; }\n    container Sub { leaf x { type string; } }\n    container sub { leaf x { type string; } }\n  }\n}\n"
 			os.WriteFile(filepath.Join(dir, n), []byte(t), 0o644)
 			names = append(names, n)
 			fs = append(fs, file{n, t})
